@@ -151,8 +151,13 @@ class Resolver:
                 else:
                     role = ["p"]
                 if any(k == "compressed" for k, _ in m["tags"]):
-                    raise Unsupported("compressed member")
-                if t[0] == "arre":
+                    if t[0] != "arre":
+                        raise Unsupported("compressed member")
+                    # endless compressed array: u32 decompressed size + zlib stream up to the end of the message.  Outside the Lean
+                    # semantics; the tokens are only published as `ztokens` for the python reference encoder (tools/pyenc.py)
+                    self.has_z = True
+                    out += ["fez", str(vid)] + t[1:]
+                elif t[0] == "arre":
                     out += ["fe", str(vid)] + t[1:]
                 else:
                     out += ["f", str(vid)] + role + t
@@ -189,8 +194,19 @@ class Resolver:
                      "key": f"{lib if lib != 'login' else 'login' + str(tv)}:{o['kind']}:{o['name']}"}
                 try:
                     if any(k == "compressed" for k, _ in o["tags"]):
+                        # whole-body compression: u32 decompressed size + zlib(body); tokens published as `zmsg_tokens` for the python reference encoder only
+                        try:
+                            self.has_z = False
+                            d["zmsg_tokens"] = self.members(o["members"], tv, {}, [0]) + ["end"]
+                        except Unsupported:
+                            pass
                         raise Unsupported("compressed message")
-                    d["tokens"] = self.members(o["members"], tv, {}, [0]) + ["end"]
+                    self.has_z = False
+                    toks = self.members(o["members"], tv, {}, [0]) + ["end"]
+                    if self.has_z:
+                        d["ztokens"] = toks
+                        raise Unsupported("compressed member")
+                    d["tokens"] = toks
                 except Unsupported as e:
                     d["unsupported"] = str(e)
                 yield d
